@@ -4,7 +4,7 @@ size are symbolic; dt comes from the environment (one OS process per dt)."""
 import os
 from typing import List
 
-from BPTK_Py import Model, Agent, DataCollector, SimultaneousScheduler
+from BPTK_Py import Model, Agent, DataCollector, SimultaneousScheduler, Event
 
 DT = float(os.environ.get("C12_DT", "1"))
 START = int(os.environ.get("C12_START", "-1"))
@@ -24,6 +24,10 @@ class _Ag(Agent):
     def initialize(self):
         self.agent_type = "A"
         self.state = "active"
+        self.register_event_handler(["active"], "ping", self._ping)
+
+    def _ping(self, event):
+        self.model.log.append(("ping", self.id, self.model.scheduler.current_time))
 
     def handle_events(self, time, sim_round, step):
         self.model.log.append(("handle", self.id, time))
@@ -31,6 +35,9 @@ class _Ag(Agent):
 
     def act(self, time, round_no, step_no):
         self.model.log.append(("act", self.id, time))
+        # pending events for the next step: one nobody handles, then one the agent handles
+        self.model.enqueue_event(Event("noise", self.id, self.id))
+        self.model.enqueue_event(Event("ping", self.id, self.id))
         plan = getattr(self.model, "deletion", None)
         if plan is not None and plan[0] == self.id and plan[2] == time:
             self.model.delete_agent(plan[1])
@@ -65,16 +72,20 @@ def new_model(start, stop, npop):
 def expected_log(start, stop, collect, ids):
     out = []
     steps = round(1 / DT)
+    first = True
     for r in range(start, stop + 1):
         for k in range(steps):
             t = r + k * DT
             out.append(("begin", r, k, t))
             for i in ids:
                 out.append(("handle", i, t))
+                if not first:
+                    out.append(("ping", i, t))        # the event the agent sent itself in the previous step
                 out.append(("act", i, t))
             out.append(("end", r, k, t))
             if collect or (r == stop and k == steps - 1):
                 out.append(("collect", tuple(ids), t))
+            first = False
     return out
 
 
@@ -119,6 +130,8 @@ def run_single_steps(stop, nsteps, npop, collect=None):
         want.append(("begin", 0, s, t))
         for i in ids:
             want.append(("handle", i, t))
+            if s > 0:
+                want.append(("ping", i, t))
             want.append(("act", i, t))
         want.append(("end", 0, s, t))
         if collect is None or collect:
@@ -170,6 +183,7 @@ def run_with_deletion(stop, npop, deleter, victim, when):
     steps = round(1 / DT)
     want = []
     live = list(ids)
+    first = True
     for r in range(0, stop + 1):
         for k in range(steps):
             t = r + k * DT
@@ -177,11 +191,14 @@ def run_with_deletion(stop, npop, deleter, victim, when):
             turn = list(live)
             for i in turn:
                 want.append(("handle", i, t))
+                if not first:
+                    want.append(("ping", i, t))
                 want.append(("act", i, t))
                 if i == ids[deleter] and t == when and ids[victim] in live:
                     live.remove(ids[victim])
             want.append(("end", r, k, t))
             want.append(("collect", tuple(live), t))
+            first = False
     if m.log != want:
         for i in range(max(len(want), len(m.log))):
             a = m.log[i] if i < len(m.log) else None
